@@ -582,7 +582,7 @@ impl<const MAX_PDI: usize> Grp<MAX_PDI> {
     // the timeout error - before the remaining time (a natural number, assumption A-TIME-1) is used up
 @loop 0
     invariant
-        __dl.active,
+        __dl.active, __dl.t@ == maindevice.timeouts.state_transition_v(),      // the wait runs under the configured STATE-TRANSITION timeout
     ensures
         __brk0 is Ok ==> forall|i: int| 0 <= i < self.subdevices@.len() ==> ok_dev(#[trigger] self.subdevices@[i], desired_state),
     decreases __dl.left@
